@@ -12,6 +12,17 @@ A request is the list of its set leaf fields (`Msg`): dotted path of field names
 protobuf's JSON codec is not modelled: the harness supplies the JSON text of every scalar; an enum
 carries its name and its number.  Sub-trees the property never looks into (maps, repeated messages,
 Struct) are single leaves.
+
+NOT MODELLED (reached by T3/oracle only, or not at all):
+  * the JSON text itself (`MessageToJson`/`Parse`), URL-quoting by `requests`, `rest_helpers.flatten_query_params`
+    beyond "one pair per scalar, dotted lowerCamel key";
+  * headers (`dict(metadata)` + Content-Type; the oracle checks Content-Type, C06 the routing header),
+    timeouts, the interceptor hooks `pre_<m>`/`post_<m>` (default interceptor = identity, implicit in T3);
+  * which `GoogleAPICallError` subclass a status ≥ 400 maps to (api-core's table) — only the `>= 400` split;
+  * server-streaming replies (`rest_streaming.ResponseIterator`), LRO replies and the operations client's
+    http_options table (C08/C17), the mixin stubs of `_rest_mixins*.j2` (C17), `rest_asyncio.py.j2`;
+  * `Method.http_opt` for a primary rule that is `custom`/absent while additional bindings are usable
+    (the driver answers `unsupported`); `google.api.http.response_body` (the generator ignores it).
 -/
 namespace GapicModel.Model.Rest
 open GapicModel.Model.Http
@@ -197,5 +208,33 @@ def restCall (tr : Transcode) (m : MethodD) (numeric : Bool) (req : Msg) : Excep
       | none, _ => .ok ⟨t.method, t.uri, none, query⟩
       | some _, none => .error .keyErrorBody
       | some _, some b => .ok ⟨t.method, t.uri, some (b.map (jsonLeaf numeric)), query⟩
+
+/-- index of the binding the reference transcoder uses (first one that applies) -/
+def selectedIndex (fields : List Str) (opts : List HttpRule) (msg : Msg) : Option Nat :=
+  opts.findIdx? (fun b => (tryBinding fields b msg).isSome)
+
+/-! ### predicates the theorems of `Props/C04` use as hypotheses; the driver decides them per call -/
+
+/-- field `n` (top level, name as in the emitted class) is not bound by binding `b` -/
+def Unbound (b : HttpRule) (n : Str) : Prop :=
+  [n] ∉ varPaths (scan b.uri) ∧ b.body ≠ some n ∧ b.body ≠ some ['*']
+
+instance (b : HttpRule) (n : Str) : Decidable (Unbound b n) := by unfold Unbound; infer_instance
+
+/-- the generator's table `query_params` (computed once, from the primary rule's raw text) is right
+about binding `b` -/
+def Agree (m : MethodD) (b : HttpRule) : Prop := ∀ n ∈ rtNames m, n ∈ queryParams m ↔ Unbound b n
+
+instance (m : MethodD) (b : HttpRule) : Decidable (Agree m b) := by unfold Agree; infer_instance
+
+/-! ### the reply (`rest_call_method_common`, rest.py.j2 `__call__`) -/
+
+inductive ReplyOutcome where
+  | httpError (status : Nat)      -- `raise core_exceptions.from_http_response(response)`
+  | parsed                        -- `json_format.Parse(response.content, pb_resp, ignore_unknown_fields=True)`
+deriving Repr, DecidableEq
+
+/-- `if response.status_code >= 400:` -/
+def replyOutcome (status : Nat) : ReplyOutcome := if status ≥ 400 then .httpError status else .parsed
 
 end GapicModel.Model.Rest
